@@ -162,7 +162,8 @@ Definition check_call (pool : list nindex) (earlier : list hcall) (cache : dq_ca
   let U := flatten own in
   let '(cache', d) := dq_cache_get cache aa in
   let model := resolve U (hc_world h) (own_dq own d) in
-  (* was this call's key used before by another grouping? (the mechanism of finding C08-F2) *)
+  (* was this call's key used before by another grouping? (the mechanism of the former finding C08-F2, fixed by
+     3541d7b: the tag stays in the validator, unlisted, so that a regression is a VIOLATION) *)
   let stale := existsb (fun e => nat_list_eqb (dq_cache_key (groups_map pool (hc_groups e))) (dq_cache_key aa) &&
                                  negb (set_eqb group_eqb (hc_groups e) (hc_groups h))) earlier in
   let self_keys := List.map fst (List.filter (fun e => nat_list_eqb (snd e) (hc_own h)) (hc_groups h)) in
